@@ -3,6 +3,7 @@ package props
 import (
 	"bufio"
 	"bytes"
+	"compress/gzip"
 	"encoding/json"
 	"fmt"
 	"html"
@@ -200,6 +201,7 @@ type c14E1Case struct {
 	D       bool
 	Framed  bool
 	HTML    bool // Content-Type contains "html": the shim script may be spliced in
+	Gzip    bool // non-HTML body served gzip-compressed (Content-Encoding: gzip) to a client that accepts gzip
 }
 
 const c14E1Host = "c14.example"
@@ -274,6 +276,15 @@ func c14E1Cases(r *core.Run, n int) []*c14E1Case {
 			c.Body = []byte(pad(1 + rng.Intn(2500)))
 		}
 		c.HTML = strings.Contains(strings.ToLower(c.CT), "html")
+		if !c.HTML && (i%5 == 2 || i == 4 || i == 16) {
+			// a compressed non-HTML resource: must pass through byte-identical, still compressed
+			var zb bytes.Buffer
+			zw := gzip.NewWriter(&zb)
+			zw.Write(c.Body)
+			zw.Close()
+			c.Body = zb.Bytes()
+			c.Gzip = true
+		}
 		c.D = c.Method == "GET" && strings.Contains(c.Accept, "text/html") && c.Status == 200 && !strings.Contains(c.CD, "attachment") && c.HTML
 		c.Framed = c.Framing != "none"
 		out = append(out, c)
@@ -283,7 +294,11 @@ func c14E1Cases(r *core.Run, n int) []*c14E1Case {
 
 func (c *c14E1Case) raw() []byte {
 	var w rawhttp.Builder
-	w.Line(c.Method+" "+c.Target+" HTTP/1.1").Field("Host", c14E1Host).Field("Accept-Encoding", "identity")
+	ae := "identity"
+	if c.Gzip {
+		ae = "gzip"
+	}
+	w.Line(c.Method+" "+c.Target+" HTTP/1.1").Field("Host", c14E1Host).Field("Accept-Encoding", ae)
 	if c.Accept != "" {
 		w.Field("Accept", c.Accept)
 	}
@@ -310,11 +325,14 @@ func (c *c14E1Case) fields() []rawhttp.Field {
 	if c.CD != "" {
 		fs = append(fs, rawhttp.Field{Name: "Content-Disposition", Value: c.CD})
 	}
+	if c.Gzip {
+		fs = append(fs, rawhttp.Field{Name: "Content-Encoding", Value: "gzip"})
+	}
 	return fs
 }
 
 func (c *c14E1Case) class() string {
-	return fmt.Sprintf("e1|%s|acc:%q|framed:%s|%d|ct:%q|cd:%q|url:%s|head:%s|1xx:%v", c.Method, c.Accept, c.Framing, c.Status, c.CT, c.CD, c.URLKind, c.Head, c.Interim)
+	return fmt.Sprintf("e1|%s|acc:%q|framed:%s|%d|ct:%q|cd:%q|url:%s|head:%s|1xx:%v|gzip:%v", c.Method, c.Accept, c.Framing, c.Status, c.CT, c.CD, c.URLKind, c.Head, c.Interim, c.Gzip)
 }
 
 // c14IframeSrcs: entity-decoded src attribute of every iframe start tag,
